@@ -36,6 +36,13 @@ KNOWN_WHAT = {
     "implicit-return-line-moves":
         "a directive appended to the last line of a function's multi-line last statement moves the function's end "
         "(_parse_src_tree: adjust_end), so an implicit-return bad-return-type error is reported on another line",
+    "call-range-drops-earlier-comment-lines":
+        "parser._process_structured_comments re-creates a Call range's comment group for every comment line, so a "
+        "directive added on a later line of a multi-line call removes the earlier lines' directives from that call "
+        "range (their write to the call's start line is lost and a silenced error re-appears)",
+    "directive-errors-unfilterable":
+        "invalid-directive / late-directive errors are logged while the Director is being constructed, before "
+        "ErrorLog.set_error_filter is called, so no directive on their line can silence them",
     "trailing-enable-later-line":
         "a trailing '# pytype: enable=E' on a later line of the same statement writes the statement's start line "
         "and undoes a trailing disable=E placed on that start line",
@@ -222,7 +229,42 @@ def groups_with_comment(groups, c):
   return [(ic, s, e) for ic, s, e, cs in groups if c in cs]
 
 
-def classify_director(ed, info, queries, before, after, groups_new, table, live):
+def new_comments(ed, info):
+  k, L, E = ed["kind"], info["L"], ed.get("name")
+  if k == "trailing":
+    return [(L, "pytype", f"disable={E}", False)]
+  if k == "ignore":
+    return [(L, "type", "ignore", False)]
+  if k == "signore":
+    return [(L, "type", "ignore", True)]
+  cs = [(L, "pytype", f"disable={E}", True)]
+  if k == "pair":
+    cs.append((info["M"], "pytype", f"enable={E}", True))
+  return cs
+
+
+def dropped_events(groups_ref, groups_new):
+  """Events of the reference program that are missing after the edit (multiset difference)."""
+  d2 = collections.Counter(flatten(groups_new))
+  out = []
+  for ev in flatten(groups_ref):
+    if d2[ev] > 0:
+      d2[ev] -= 1
+    else:
+      out.append(ev)
+  return out
+
+
+def explained_by_drop(dropped, line, name):
+  """Could the loss of one of the dropped call-range events change the verdict of (line, name)?"""
+  for ic, s, e, cc in dropped:
+    if ic and line in (s, cc[0]):
+      if cc[1] == "type" or "*" in cc[2] or name in cc[2]:
+        return True
+  return False
+
+
+def classify_director(ed, info, queries, before, after, groups_new, table, live, dropped=()):
   """Returns list of (fingerprint, detail) for every deviation from the property, [] when it holds."""
   k = ed["kind"]
   L = info["L"]
@@ -257,7 +299,10 @@ def classify_director(ed, info, queries, before, after, groups_new, table, live)
           out.append(("reported-line-changed", f"query {(l, n, ro)} before={b} after={a}"))
         continue
       adj_ok = k == "ignore" or (n == E and E in live["adj"])
-      if b[0] == 1 and a[0] == 0 and adj_ok and b[1] in starts and b[1] != L:
+      if explained_by_drop(dropped, b[1], n):
+        out.append(("call-range-drops-earlier-comment-lines",
+                    f"({l},{n}) before={b} after={a}: a call range lost the directive of an earlier line"))
+      elif b[0] == 1 and a[0] == 0 and adj_ok and b[1] in starts and b[1] != L:
         out.append(("adjusted-start-line" if k == "trailing" else "adjusted-start-line:type-ignore",
                     f"({l},{n}) also silenced; it is the start line of a range containing line {L}"))
       else:
@@ -265,6 +310,7 @@ def classify_director(ed, info, queries, before, after, groups_new, table, live)
   else:
     E = ed.get("name")
     Mx = info.get("M")
+    base = [(s, e) for c in new_comments(ed, info) for ic, s, e in groups_with_comment(groups_new, c) if not ic]
     # lines whose per-line entry a trailing directive writes (exempt: per-line entries override ranges)
     exempt = set()
     for ic, s, e, cs in groups_new:
@@ -279,7 +325,10 @@ def classify_director(ed, info, queries, before, after, groups_new, table, live)
       eff = b[1] if b[1] != 0 else 2 ** 63 - 1
       inside = eff >= L and (Mx is None or eff < Mx)
       if a[1] != b[1]:
-        out.append(("reported-line-changed", f"query {(l, n, ro)} before={b} after={a}"))
+        if n == irn and ro and any(b[1] == e and s <= a[1] <= e and s < e for s, e in base):
+          out.append(("implicit-return-line-moves", f"({l},{n},ret) reported on {b[1]} before, {a[1]} after"))
+        else:
+          out.append(("reported-line-changed", f"query {(l, n, ro)} before={b} after={a}"))
         continue
       if inside and (k == "signore" or n == E):
         if a[0] == 1 and eff not in exempt:
@@ -312,7 +361,10 @@ def analyse(src, disable=()):
   return (errs, pyi), None
 
 
-def classify_e2e(ed, info, before, after, groups_new, table, live):
+DIRECTIVE_ERRORS = ("invalid-directive", "late-directive")
+
+
+def classify_e2e(ed, info, before, after, groups_new, table, live, dropped=()):
   """before/after: (errs, pyi).  Returns list of (fingerprint, detail)."""
   k = ed["kind"]
   L = info["L"]
@@ -329,8 +381,13 @@ def classify_e2e(ed, info, before, after, groups_new, table, live):
   else:
     Mx = info.get("M")
     is_target = lambda t: t[0] >= L and (Mx is None or t[0] < Mx) and (k == "signore" or t[1] == E)
-    starts, base = set(), []
+    starts = set()
+    base = [(s, e) for c in new_comments(ed, info) for ic, s, e in groups_with_comment(groups_new, c) if not ic]
   remaining = [t for t in A if is_target(t)]
+  unfilterable = [t for t in remaining if t[1] in DIRECTIVE_ERRORS]
+  if unfilterable:
+    out.append(("directive-errors-unfilterable", f"still reported after the edit: {[t[:2] for t in unfilterable][:2]}"))
+    remaining = [t for t in remaining if t[1] not in DIRECTIVE_ERRORS]
   if remaining:
     later_enable = k == "trailing" and any(
         cc[1] == "pytype" and not cc[3] and cc[0] != L and mentions(cc[2], "enable", E) and s == L
@@ -374,6 +431,12 @@ def classify_e2e(ed, info, before, after, groups_new, table, live):
         (k == "ignore" or E == irn):
       missing.remove(t)
       out.append(("implicit-return-line-moves", f"{t[:2]} moved to the statement's start line and is filtered there"))
+  drop = [t for t in missing + extra if explained_by_drop(dropped, t[0], t[1])]
+  if drop:
+    missing = [t for t in missing if t not in drop]
+    extra = [t for t in extra if t not in drop]
+    out.append(("call-range-drops-earlier-comment-lines",
+                f"changed: {[t[:2] for t in drop][:3]}: a call range lost the directive of an earlier line"))
   if missing or extra:
     out.append(("e2e-other-errors-changed", f"missing={[t[:2] for t in missing][:3]} extra={[t[:2] for t in extra][:3]}"))
   if before[1] != after[1]:
@@ -434,7 +497,8 @@ def director_deviations(src, disable, ed, table, live):
   if cb != 0 or ca != 0:
     return [("construction-raises", f"before={cb} after={ca}")] if ca != cb else []
   groups_new, _, _, _ = M.real_parse(new)
-  return classify_director(ed, info, qs, before, after, groups_new, table, live)
+  groups_ref, _, _, _ = M.real_parse(ref)
+  return classify_director(ed, info, qs, before, after, groups_new, table, live, dropped_events(groups_ref, groups_new))
 
 
 def e2e_deviations(src, disable, ed, table, live):
@@ -446,7 +510,8 @@ def e2e_deviations(src, disable, ed, table, live):
   if a is None:
     return None
   groups_new, _, _, _ = M.real_parse(new)
-  return classify_e2e(ed, info, b, a, groups_new, table, live)
+  groups_ref, _, _, _ = M.real_parse(ref)
+  return classify_e2e(ed, info, b, a, groups_new, table, live, dropped_events(groups_ref, groups_new))
 
 
 def query_names(ref, new, ed, table):
@@ -511,8 +576,8 @@ def run(res):
                        "harness/props/c03_model.py (conversion of the real parser's output to Coq terms; str.split tokeniser)",
                        "CPython tokenize/ast (used by the real parser) and bisect"]
   r = common.rng(res.seed, "c03")
-  n_prog = 220 if thorough else 34
-  n_e2e_prog = 150 if thorough else 16
+  n_prog = 220 if thorough else 22
+  n_e2e_prog = 150 if thorough else 14
   t_start = time.time()
 
   # --- corpus first
@@ -587,15 +652,16 @@ def run(res):
         seen_variants.add((text, tuple(names)))
         groups, fr, rl = parsed[text]
         code, answers, dreal = real_answers(text, disable, qs, table)
-        q_rows = []
+        exc, extra_q = [], []
         if code == 0:
-          q_rows = [(l, ids.of(n), ro, True, a[0], a[1]) for (l, n, ro), a in zip(qs, answers)]
+          exc = [(i, a[0], a[1]) for i, ((l, n, ro), a) in enumerate(zip(qs, answers)) if a != (1, l)]
           # a few other-file errors
           for l in (1, nl // 2):
             a = M.real_filter(dreal, l, names[0], False, table, same_file=False)
-            q_rows.append((l, ids.of(names[0]), False, False, a[0], a[1]))
-        n_queries += len(q_rows)
-        cases.append(M.case_text(len(cases) % 60, [ids.of(x) for x in disable], fr, rl, groups, ids, code, q_rows))
+            extra_q.append((l, ids.of(names[0]), False, False, a[0], a[1]))
+        n_queries += len(qs) + len(extra_q)
+        cases.append(M.case_text_grid(len(cases), [ids.of(x) for x in disable], fr, rl, groups, ids, code,
+                                      nl, [ids.of(n) for n in names], exc, extra_q))
         case_meta.append({"tag": tag, "kind": kind, "src": text, "disable": disable, "queries": qs, "edit": ed})
       if ed is None:
         continue
@@ -606,7 +672,11 @@ def run(res):
       if kind in ("trailing", "ignore"):
         c = (L, "pytype", f"disable={ed['name']}", False) if kind == "trailing" else (L, "type", "ignore", False)
         added = check_inserted(gD, gD2, lambda ev: ev[3] == c and ev[1] <= L <= ev[2])
-        if added is None:
+        drop = dropped_events(parsed[ref][0], parsed[new][0])
+        if added is None and drop and all(ev[0] and ev[1] <= L <= ev[2] and ev[3][0] < L for ev in drop) and \
+            check_inserted([ev for ev in gD if ev not in drop], gD2, lambda ev: ev[3] == c and ev[1] <= L <= ev[2]) is not None:
+          hyp["inserted:violated-by-known-call-range-drop"] += 1
+        elif added is None:
           hyp["inserted:violated"] += 1
           if len(hyp_debug) < 5:
             hyp_debug.append({"src": new, "edit": ed, "before": [e for e in gD if e not in gD2][:6],
@@ -652,7 +722,8 @@ def run(res):
       if len(res.samples) < 4 and changed and kind == "trailing" and len(src) < 900:
         res.sample({"program": src[len(P.PRELUDE):], "edit": ed, "verdicts_changed": changed})
       if not skip_oracle:
-        devs = classify_director(ed, info, qs, before, after, parsed[new][0], table, live)
+        devs = classify_director(ed, info, qs, before, after, parsed[new][0], table, live,
+                                 dropped_events(parsed[ref][0], parsed[new][0]))
         for fp in sorted({d[0] for d in devs}):
           dev_hist["director:" + fp] += 1
           detail = next(d[1] for d in devs if d[0] == fp)
@@ -665,6 +736,8 @@ def run(res):
             rep = {"src": s2, "disable": disable, "edit": e2, "level": "director"}
           report(fp, detail, rep)
       if do_e2e and kind in ("trailing", "ignore", "pair"):
+        e2e_jobs.append((tag, src, disable, ed))
+      elif do_e2e and tag.startswith("corpus:"):
         e2e_jobs.append((tag, src, disable, ed))
 
   res.extra["variants"] = len(cases)
@@ -679,9 +752,10 @@ def run(res):
   # --- model vs implementation (Coq evaluates the model and compares)
   t0 = time.time()
   files = []
-  per = 60
+  n_files = 12 if thorough else 4        # each coqc process pays the stdlib loading cost once
+  per = min(450, max(1, -(-len(cases) // n_files)))
   for k in range(0, len(cases), per):
-    chunk = cases[k:k + per]
+    chunk = [c.replace(f"Definition case_{k + j} :", f"Definition case_{j} :", 1) for j, c in enumerate(cases[k:k + per])]
     files.append((f"c03_{k // per}", M.cases_file(chunk)))
   results = common.run_cases_parallel(files)
   n_mism = 0
@@ -696,7 +770,7 @@ def run(res):
       n_mism += 1
       meta = case_meta[k * per + idx]
       if n_mism <= 3:
-        q = [meta["queries"][i] if i < len(meta["queries"]) else ("construction", i) for i in qidx[:5]]
+        q = [meta["queries"][i] if i < len(meta["queries"]) else ("other-file/construction", i) for i in qidx[:5]]
         res.obligation("correspondence:" + meta["tag"] + ":" + meta["kind"], False,
                        f"model and real Director differ on queries {q}; disable={meta['disable']}; source:\n{meta['src']}")
   res.obligation("correspondence:model-vs-Director", n_mism == 0, f"{n_mism} of {len(cases)} variants disagree")
@@ -712,6 +786,9 @@ def run(res):
   e2e_plan = []
   seen_prog = set()
   for tag, src, disable, ed in e2e_jobs:
+    if tag.startswith("corpus:"):
+      e2e_plan.append((tag, src, disable, ed))     # corpus edits are replayed exactly
+      continue
     if (src, tuple(disable)) not in seen_prog:
       seen_prog.add((src, tuple(disable)))
       e2e_plan.append((tag, src, disable, None))
